@@ -47,6 +47,13 @@ impl SlotVersion {
 }
 
 impl ArchetypeVersion {
+    /// Verification hook (off by default): direct set.
+    #[cfg(gecs_verif)]
+    #[inline(always)]
+    pub(crate) fn __verif_new(version: NonZeroU32) -> Self {
+        Self { version }
+    }
+
     #[inline(always)]
     pub(crate) fn start() -> Self {
         Self {
